@@ -21,6 +21,7 @@ type PathState struct {
 	idx     int
 	tracked map[ssa.Value]bool
 	marked  map[ssa.Value]bool // like tracked (flows through phis on the path) but says nothing about nil-ness
+	alias   map[*ssa.Phi]ssa.Value // boolean phis: the (non-constant) operand selected on this path
 	consts  map[ssa.Value]*ssa.Const
 	parent  *PathState
 	via     string
@@ -106,7 +107,7 @@ func (s *PathState) NonNil(v ssa.Value) bool {
 	if s == nil || v == nil {
 		return false
 	}
-	if _, boxed := v.(*ssa.MakeInterface); boxed {
+	if KnownNonNil(v) {
 		return true
 	}
 	if s.Has(v) {
@@ -116,8 +117,68 @@ func (s *PathState) NonNil(v ssa.Value) bool {
 	return ok && c == nonNilMarker
 }
 
+// KnownNonNil: v is a freshly boxed value or the result of a standard error constructor.
+func KnownNonNil(v ssa.Value) bool {
+	switch x := v.(type) {
+	case *ssa.MakeInterface:
+		return true
+	case *ssa.Call:
+		return StdCallee(x, "errors", "New") || StdCallee(x, "fmt", "Errorf")
+	}
+	return false
+}
+
 // nonNilMarker stands in the constant environment for "some non-nil value" (a freshly boxed error selected at a phi).
 var nonNilMarker = ssa.NewConst(constant.MakeString("!nil"), types.Typ[types.String])
+
+// Selected resolves a boolean or error phi to the operand it took on this path (v itself otherwise).
+func (s *PathState) Selected(v ssa.Value) ssa.Value {
+	for i := 0; i < 6; i++ {
+		phi, ok := v.(*ssa.Phi)
+		if !ok || s == nil {
+			return v
+		}
+		a, ok := s.alias[phi]
+		if !ok {
+			return v
+		}
+		v = a
+	}
+	return v
+}
+
+// FactsOnEdge is an.FactsOnEdge refined by the path: when the branch tests a boolean phi (a condition computed as a
+// value, `ok := a || b; if ok {…}`), the operand the phi took on this path is what the branch decided.
+func (s *PathState) FactsOnEdge(e Edge) []Fact {
+	out := FactsOnEdge(e)
+	if s == nil || len(e.From.Instrs) == 0 || len(e.From.Succs) != 2 || e.From.Succs[0] == e.From.Succs[1] {
+		return out
+	}
+	ifi, ok := e.From.Instrs[len(e.From.Instrs)-1].(*ssa.If)
+	if !ok {
+		return out
+	}
+	f := normFact(ifi.Cond, e.From.Succs[0] == e.To, ifi)
+	if phi, ok := f.V.(*ssa.Phi); ok {
+		if a, ok := s.alias[phi]; ok {
+			nf := normFact(a, f.True, ifi)
+			out = append(out, nf)
+			out = append(out, expandPhiFact(nf, 0)...)
+		}
+	}
+	return out
+}
+
+// CmpsOnEdge is the comparison view of FactsOnEdge.
+func (s *PathState) CmpsOnEdge(e Edge) []Cmp {
+	var out []Cmp
+	for _, f := range s.FactsOnEdge(e) {
+		if c, ok := f.AsCmp(); ok {
+			out = append(out, c)
+		}
+	}
+	return out
+}
 
 // Marked reports whether v is one of the query's Marked values or a phi that selected one on this path.
 func (s *PathState) Marked(v ssa.Value) bool {
@@ -152,6 +213,9 @@ func (s *PathState) sig() string {
 	}
 	for v := range s.marked {
 		parts = append(parts, "m"+v.Name())
+	}
+	for v, a := range s.alias {
+		parts = append(parts, "a"+v.Name()+"="+a.Name())
 	}
 	for v, c := range s.consts {
 		parts = append(parts, "c"+v.Name()+"="+c.String())
@@ -189,8 +253,11 @@ func (q *PathQ) Find() (witness []string, found bool) {
 	seen := map[string]bool{}
 	var stack []*PathState
 	mk := func(b *ssa.BasicBlock, idx int, parent *PathState, via string) *PathState {
-		st := &PathState{block: b, idx: idx, tracked: map[ssa.Value]bool{}, marked: map[ssa.Value]bool{}, consts: map[ssa.Value]*ssa.Const{}, parent: parent, via: via}
+		st := &PathState{block: b, idx: idx, tracked: map[ssa.Value]bool{}, marked: map[ssa.Value]bool{}, consts: map[ssa.Value]*ssa.Const{}, alias: map[*ssa.Phi]ssa.Value{}, parent: parent, via: via}
 		if parent != nil {
+			for k, v := range parent.alias {
+				st.alias[k] = v
+			}
 			for k := range parent.tracked {
 				st.tracked[k] = true
 			}
@@ -235,6 +302,11 @@ func (q *PathQ) Find() (witness []string, found bool) {
 	for _, e := range q.StartEdges {
 		st := mk(e.To, 0, nil, fmt.Sprintf("edge b%d->b%d", e.From.Index, e.To.Index))
 		initTracked(st)
+		if len(e.From.Succs) == 2 && e.From.Succs[0] != e.From.Succs[1] && !q.NoFold {
+			if ifi, ok := e.From.Instrs[len(e.From.Instrs)-1].(*ssa.If); ok {
+				learnNil(st, ifi.Cond, e.To == e.From.Succs[0])
+			}
+		}
 		q.enter(st, e.From)
 		push(st)
 	}
@@ -247,6 +319,13 @@ func (q *PathQ) Find() (witness []string, found bool) {
 			in := b.Instrs[i]
 			if _, isPhi := in.(*ssa.Phi); isPhi {
 				continue
+			}
+			// executing the instruction (again, in a loop) gives its value a new run-time content: what an earlier
+			// branch learned about the old content no longer applies
+			if v, ok := in.(ssa.Value); ok {
+				if _, had := st.consts[v]; had && q.Consts[v] == nil {
+					delete(st.consts, v)
+				}
 			}
 			if q.Cut != nil && q.Cut(in, st) {
 				cut = true
@@ -315,6 +394,7 @@ func (q *PathQ) enter(st *PathState, pred *ssa.BasicBlock) {
 		phi     *ssa.Phi
 		tracked bool
 		marked  bool
+		alias   ssa.Value
 		c       *ssa.Const
 	}
 	var upds []upd
@@ -326,11 +406,25 @@ func (q *PathQ) enter(st *PathState, pred *ssa.BasicBlock) {
 		op := phi.Edges[pi]
 		u := upd{phi: phi}
 		u.marked = st.Marked(op)
+		isBool := false
+		if b, ok := phi.Type().Underlying().(*types.Basic); ok && b.Kind() == types.Bool {
+			isBool = true
+		}
+		if isBool || IsErrorType(phi.Type()) {
+			if _, isC := op.(*ssa.Const); !isC {
+				u.alias = op
+				if ph2, ok := op.(*ssa.Phi); ok {
+					if a, ok := st.alias[ph2]; ok {
+						u.alias = a
+					}
+				}
+			}
+		}
 		if st.Has(op) {
 			u.tracked = true
 		} else if c, ok := st.ConstOf(op); ok && (q.AllConsts || branchRelevant(phi)) {
 			u.c = c
-		} else if _, boxed := op.(*ssa.MakeInterface); boxed && (q.AllConsts || branchRelevant(phi)) {
+		} else if KnownNonNil(op) && (q.AllConsts || branchRelevant(phi)) {
 			u.c = nonNilMarker
 		}
 		upds = append(upds, u)
@@ -339,8 +433,12 @@ func (q *PathQ) enter(st *PathState, pred *ssa.BasicBlock) {
 		delete(st.tracked, u.phi)
 		delete(st.consts, u.phi)
 		delete(st.marked, u.phi)
+		delete(st.alias, u.phi)
 		if u.marked {
 			st.marked[u.phi] = true
+		}
+		if u.alias != nil {
+			st.alias[u.phi] = u.alias
 		}
 		if u.tracked {
 			st.tracked[u.phi] = true
@@ -382,7 +480,7 @@ func (s *PathState) evalBool(v ssa.Value, depth int) (val, known bool) {
 				if s.Has(other) {
 					return x.Op == token.NEQ, true
 				}
-				if _, boxed := other.(*ssa.MakeInterface); boxed {
+				if KnownNonNil(other) {
 					return x.Op == token.NEQ, true
 				}
 				if c, ok := s.ConstOf(other); ok && c == nonNilMarker {
